@@ -505,9 +505,9 @@ def gen_edits(rng, P):
     return out
 
 
-def rt_script(cid, P, fmt, with_solve, with_z, edits=()):
+def rt_script(cid, P, fmt, with_solve, with_z, edits=(), mix=None):
     e = "lp" if fmt == "LP" else "mps"
-    L = ["CASE %s" % cid, load_block(0, P)] + ["EDIT h0 %s" % x for x in edits] + ["DUMPO h0",
+    L = ["CASE %s" % cid, load_block(0, P, mix)] + ["EDIT h0 %s" % x for x in edits] + ["DUMPO h0",
          "WRITE h0 a.%s %s" % (e, fmt), "CAT a.%s" % e, "READ h1 a.%s %s" % (e, fmt), "DUMPO h1",
          "WRITE h1 b.%s %s" % (e, fmt), "CAT b.%s" % e, "READ h2 b.%s %s" % (e, fmt), "DUMPO h2"]
     if fmt == "MPS":
@@ -547,17 +547,32 @@ def run_roundtrip_check(ck, fmt, pr, gen):
     probs = {}
     corp = os.path.join(VERIF, "corpus", pid)
     cases = []
+    mixes = {}
+    fam = {}
     for i in range(n):
-        P = gen.gen_problem(ck.rng, fmt, big=(i % 2 == 0))
         cid = "g%d" % i
+        if i % 10 == 3:
+            P = gen.gen_problem_wrap(ck.rng, fmt)               # long objective / rows: several wrap points, signs vary
+            fam[cid] = "wrap"
+        elif i % 10 == 7:
+            P = gen.gen_problem_kwbounds(ck.rng, fmt)           # columns named like keywords with free / one-sided bounds
+            fam[cid] = "keyword-bounds"
+        else:
+            P = gen.gen_problem(ck.rng, fmt, big=(i % 2 == 0))
+            fam[cid] = "general"
         probs[cid] = P
+        # rows added before some of the columns: structmap is not the identity
+        nc = len(P["cols"])
+        mixes[cid] = (ck.rng.randrange(0, max(1, nc // 2 + 1)) if fam[cid] == "wrap" else ck.rng.randrange(0, nc + 1)) if (i % 2 == 1 or fam[cid] == "wrap") else None
     k = 0
     edits = {}
     for cid, P in probs.items():
         k += 1
         edits[cid] = gen_edits(ck.rng, P) if k % 3 == 0 else []
-        cases.append((cid, rt_script(cid, P, fmt, gen.magnitude_ok(P), k % 5 == 0, edits[cid])))
+        cases.append((cid, rt_script(cid, P, fmt, gen.magnitude_ok(P), k % 5 == 0, edits[cid], mixes[cid])))
     ck.cov["cases_with_edit_history"] = sum(1 for v in edits.values() if v)
+    ck.cov["cases_rows_before_columns"] = sum(1 for v in mixes.values() if v is not None)
+    ck.cov["case_families"] = {f: sum(1 for v in fam.values() if v == f) for f in set(fam.values())}
     scripts = dict(cases)
     M, outs, crashes, where = run_io_cases(cases, per_case_timeout=120, tag=pid, keep=True)
     crashed = {c[0]: c for c in crashes}
@@ -569,6 +584,7 @@ def run_roundtrip_check(ck, fmt, pr, gen):
     info = {}
     numbers = set()
     bq = {}
+    wq = {}         # writer correspondence: query id -> (case, label, text written by the library)
     e = "lp" if fmt == "LP" else "mps"
     for cid, P in probs.items():
         toks = outs.get(cid)
@@ -583,6 +599,7 @@ def run_roundtrip_check(ck, fmt, pr, gen):
             o.next("EDIT")            # edits may fail (e.g. range on a non-ranged row): the dump below is what counts
         P0 = dump_of(o.next("P"))
         texts = []
+        lpw = []         # (source problem as dumped, announced renames, text) of every successful LP write
 
         def step(src_handle_problem, f, label):
             """consume WRITE (+CAT) READ DUMPO; returns (problem or None, renames, text)"""
@@ -599,6 +616,8 @@ def run_roundtrip_check(ck, fmt, pr, gen):
             if not ok:
                 why = "write rv=%s" % (w[0][1:3] if w else None,) if not (w and w[0][0] == "WRITE" and w[0][1] == "0") else \
                     "reader rejected the written file: %s" % [dec(t[3]).strip() for t in (r[1] if r else []) if t[0] == "E" and t[1] not in ("1", "3", "5")][:3]
+            if f == "LP" and w is not None and w[0][0] == "WRITE" and w[0][1] == "0" and text is not None and src_handle_problem is not None:
+                lpw.append((src_handle_problem, renames_of(w), text, label))
             return Pn, (renames_of(w) if w and f == "LP" else {}), text, why
 
         chain = []   # (label, source problem, result, renames, fmt of file, why)
@@ -634,7 +653,14 @@ def run_roundtrip_check(ck, fmt, pr, gen):
             for lab in ("z1", "z2"):
                 Pz, _, tz, why = step(P0, fmt, lab)
                 zs.append((Pz, tz, why))
-        info[cid] = dict(P0=P0, chain=chain, sols=sols, zs=zs, texts=texts, t1=t1, ren1=ren1)
+        info[cid] = dict(P0=P0, chain=chain, sols=sols, zs=zs, texts=texts, t1=t1, ren1=ren1, lpw=lpw)
+        for j, (A, ren, text, lab) in enumerate(lpw):
+            if "objname" in A and len(text) < 400000:
+                on = lp_objname(A)
+                Ar = rename_problem(A, ren)
+                Ar["objname"], Ar["intmarker"] = ren.get(on, on), A["intmarker"]
+                wq["%s.w%d" % (cid, j)] = (cid, lab, text)
+                q.append("Q %s.w%d lpwrite\n%s" % (cid, j, slp_block(Ar)))
         for j, (label, A, B, ren, fm, why) in enumerate(chain):
             if why is not None or B is None:
                 fails.append((cid, "%s: %s" % (label, why or "no problem"), fm, texts))
@@ -667,7 +693,7 @@ def run_roundtrip_check(ck, fmt, pr, gen):
     for cid, d in info.items():
         P = probs[cid]
         s = d["sols"]
-        if len(s) == 2 and s[0] is not None and s[1] is not None and d["chain"][0][2] is not None and gen.empty_rows_ok(P):
+        if len(s) == 2 and s[0] is not None and s[1] is not None and d["chain"][0][2] is not None and d["P0"] is not None and gen.empty_rows_ok(d["P0"]):   # the problem written is the one after the edits
             nsolved += 1
             if s[0] != s[1]:
                 fails.append((cid, "status/value differ after the round trip: %s vs %s" % (s[0], s[1]), {fmt}, d["texts"]))
@@ -685,8 +711,26 @@ def run_roundtrip_check(ck, fmt, pr, gen):
                 raw = None
             if raw != d["t1"] and not cid in [f[0] for f in fails]:
                 fails.append((cid, "%s target is not a valid compressed copy of the plain text (independent decompression)" % ext, {fmt}, d["texts"]))
-    # ---- correspondence: number printing and bound elision
+    # ---- correspondence: the LP writer model (IO/LpWrite.write_lp) vs the bytes mpq_QSwrite_prob wrote, whole files line by line
     corr_bad = []
+    nw = 0
+    for k2, (cid, lab, text) in wq.items():
+        a = ans.get(k2)
+        if a is None or (a and a[0] in ("PARSE-ERROR", "UNKNOWN-QUERY")):
+            corr_bad.append("lpwrite query %s: %s" % (k2, a))
+            continue
+        nw += 1
+        model = b"".join(decb(t) + b"\n" for t in a)
+        if model != text:
+            ml, tl = model.split(b"\n"), text.split(b"\n")
+            d = next((i for i in range(max(len(ml), len(tl))) if (ml[i] if i < len(ml) else None) != (tl[i] if i < len(tl) else None)), 0)
+            msg = "LP writer: file '%s' of case %s differs from IO/LpWrite.write_lp at line %d: library %r, model %r" % (
+                lab, cid, d + 1, (tl[d] if d < len(tl) else None) and tl[d][:200], (ml[d] if d < len(ml) else None) and ml[d][:200])
+            if cid not in set(f[0] for f in fails):
+                fails.append((cid, "the LP text written differs from the writer model (line %d: %r vs model %r)" % (
+                    d + 1, (tl[d] if d < len(tl) else b"")[:120], (ml[d] if d < len(ml) else b"")[:120]), {"LP"}, info[cid]["texts"]))
+            corr_bad.append(msg)
+    ck.cov["lp_writer_correspondence"] = dict(files_compared_byte_for_byte=nw, differing=sum(1 for x in corr_bad if x.startswith("LP writer")))
     rcq = "CASE pn\n" + "".join("PRINTNUM %s\n" % qs(v) for v in nums)
     rc, out, err = run_io(rcq)
     real = [l.split()[1] for l in out.splitlines() if l.startswith("PRINTNUM ")]
